@@ -29,6 +29,8 @@ import (
 )
 
 type pki struct {
+	clientCA                                                            *certs.Pair // what the collector is told to trust for exporters (distinct from the CA of its own certificate)
+	cliFromClientCA, cliExpiredCCA                                      *certs.Pair
 	ca, otherCA                                                         *certs.Pair
 	srvTrusted, srvOtherCA, srvSelf, srvExpired, srvFuture, srvWrongSAN *certs.Pair
 	srvNoSAN                                                            *certs.Pair
@@ -55,6 +57,9 @@ func mkPKI(v6 bool) *pki {
 	p.srvFuture = certs.Issue(p.ca, fut)
 	p.srvWrongSAN = certs.Issue(p.ca, certs.Opts{CN: "collector", DNS: []string{"other.test"}, IPs: []string{"10.9.9.9"}})
 	p.srvNoSAN = certs.Issue(p.ca, certs.Opts{CN: "collector.test"})
+	p.clientCA = certs.NewCA("client-ca")
+	p.cliFromClientCA = certs.Issue(p.clientCA, certs.Opts{CN: "exporter", Client: true})
+	p.cliExpiredCCA = certs.Issue(p.clientCA, certs.Opts{CN: "exporter", Client: true, NotBefore: time.Now().Add(-48 * time.Hour), NotAfter: time.Now().Add(-time.Hour)})
 	p.cliTrusted = certs.Issue(p.ca, certs.Opts{CN: "exporter", Client: true})
 	p.cliOtherCA = certs.Issue(p.otherCA, certs.Opts{CN: "exporter", Client: true})
 	cexp := certs.Opts{CN: "exporter", Client: true, NotBefore: time.Now().Add(-48 * time.Hour), NotAfter: time.Now().Add(-time.Hour)}
@@ -143,6 +148,50 @@ func tlsExporterVsCollector(srv func(*pki) *certs.Pair, serverName string, clien
 		}
 		if len(got) > 0 {
 			return "delivered-from-unauthenticated-exporter", fmt.Sprintf("%d messages were delivered from an exporter that must not be accepted", len(got))
+		}
+		return "", ""
+	}
+}
+
+// clientAuthDistinctCAs: the collector's own certificate is issued by one CA (optionally supplied as a
+// full-chain bundle: leaf + issuing CA), exporters must be authenticated against ANOTHER CA.
+func clientAuthDistinctCAs(bundle bool, cli func(*pki) *certs.Pair, wantDelivery bool) func(*hx.Ctx, int, *pki, bool) (string, string) {
+	return func(c *hx.Ctx, k int, p *pki, v6 bool) (string, string) {
+		serverPEM := p.srvTrusted.CertPEM
+		if bundle {
+			serverPEM = append(append([]byte{}, p.srvTrusted.CertPEM...), p.ca.CertPEM...)
+		}
+		coll, err := lib.StartCollector(collector.CollectorInput{Address: host(v6), Protocol: "tcp", MaxBufferSize: 65535, IsIPv6: v6, IsEncrypted: true,
+			ServerCert: serverPEM, ServerKey: p.srvTrusted.KeyPEM, CACert: p.clientCA.CertPEM})
+		if err != nil {
+			return "harness", "collector: " + err.Error()
+		}
+		defer coll.Stop(20 * time.Second)
+		domain := uint32(0xC1850000 + k)
+		tc := &exporter.ExporterTLSClientConfig{CAData: p.ca.CertPEM}
+		if cli != nil {
+			cp := cli(p)
+			tc.CertData, tc.KeyData = cp.CertPEM, cp.KeyPEM
+		}
+		ep, err := exporter.InitExportingProcess(exporter.ExporterInput{CollectorAddress: coll.Addr(), CollectorProtocol: "tcp", ObservationDomainID: domain, TLSClientConfig: tc, IsIPv6: v6})
+		if err != nil {
+			if wantDelivery {
+				return "positive-cell-failed", "exporter with a certificate from the client CA refused: " + err.Error()
+			}
+			return "", ""
+		}
+		defer ep.CloseConnToCollector()
+		serr := sendOne(ep)
+		wait := negWait
+		if wantDelivery {
+			wait = posWait
+		}
+		got, _ := coll.Wait(domain, 2, wait)
+		if wantDelivery && len(got) < 2 {
+			return "positive-cell-failed", fmt.Sprintf("%d of 2 messages delivered (send error: %v)", len(got), serr)
+		}
+		if !wantDelivery && len(got) > 0 {
+			return "delivered-from-unauthenticated-exporter", fmt.Sprintf("%d messages were delivered from an exporter whose certificate was not issued by the configured client CA", len(got))
 		}
 		return "", ""
 	}
@@ -442,6 +491,21 @@ func main() {
 				wantDelivery := !caSet || ck.ok
 				cells = append(cells, cell{name: fmt.Sprintf("tls client-cert=%s collector-client-ca=%v", ck.name, caSet), v6: v6, neg: !wantDelivery,
 					run: tlsExporterVsCollector(func(p *pki) *certs.Pair { return p.srvTrusted }, "", caSet, ck.f, wantDelivery, wantDelivery, false)})
+			}
+		}
+		for _, bundle := range []bool{false, true} {
+			for _, ck := range []struct {
+				name string
+				f    func(*pki) *certs.Pair
+				ok   bool
+			}{
+				{"from-client-ca", func(p *pki) *certs.Pair { return p.cliFromClientCA }, true},
+				{"from-the-server-certificate's-ca", func(p *pki) *certs.Pair { return p.cliTrusted }, false},
+				{"other-ca", func(p *pki) *certs.Pair { return p.cliOtherCA }, false},
+				{"expired-from-client-ca", func(p *pki) *certs.Pair { return p.cliExpiredCCA }, false},
+				{"none", nil, false},
+			} {
+				cells = append(cells, cell{name: fmt.Sprintf("tls distinct client CA, server cert bundle=%v, client-cert=%s", bundle, ck.name), v6: v6, neg: !ck.ok, run: clientAuthDistinctCAs(bundle, ck.f, ck.ok)})
 			}
 		}
 		for _, v := range []struct {
